@@ -745,12 +745,17 @@ class TaskScenario(ScenarioData):
         if is_milestone:
             # Milestone: set end = start (zero duration)
             if forward:
-                if start_date:
+                if start_date and self.property.provided("start", self.scenarioIdx):
                     self.property[("end", self.scenarioIdx)] = start_date
                 else:
-                    # No start date - use current slot (set by dependency calculation)
+                    # No start date of its own - the milestone happens at the dependency
+                    # bound: the current slot plus the offset of a bound inside the slot
                     slot_idx = self.currentSlotIdx if self.currentSlotIdx is not None else 0
                     date = self.project.idxToDate(slot_idx)
+                    if date is not None and self.slotStartOffset > 0:
+                        from datetime import timedelta
+
+                        date = date + timedelta(seconds=self.slotStartOffset)
                     self.property[("start", self.scenarioIdx)] = date
                     self.property[("end", self.scenarioIdx)] = date
             else:
